@@ -867,6 +867,22 @@ class Assembler:
                 spec['loop'] = [dict(lp_, **{kk: [sub_(c) for c in lp_.get(kk, [])] for kk in ('invariant', 'invariant_except_break', 'ensures') if kk in lp_}) for lp_ in spec.get('loop', [])]
                 spec['proof'] = [dict(pr_, **{kk: sub_(pr_[kk]) for kk in ('text', 'assert') if kk in pr_}) for pr_ in spec.get('proof', [])]
         for lp in spec.get('loop', []):
+            if 'head' in lp:
+                # the loop named by its HEADER text (keyword up to the opening brace, token for token) instead of its ordinal:
+                # deleting or adding other loops does not shift it.  `optional = true`: when no loop reads like that any more
+                # the loop contract is moot and dropped (recorded) -- the function's own postconditions judge what the code
+                # does instead
+                want_ = extract._tok_strings(lp['head'])
+                hits_ = [i_ for i_, (kw_, ko_) in enumerate(loops) if [s.s(q) for q in range(kw_, ko_)] == want_]
+                if not hits_:
+                    if lp.get('optional'):
+                        self.dropped_closure_contracts.append('%s: loop contract for `%s` (no such loop)' % (fnname, lp['head']))
+                        for kk_ in ('invariant', 'invariant_except_break', 'ensures'):
+                            for x_ in lp.get(kk_, []) or []:
+                                self.moot.append(split_clause(x_)[0])
+                        continue
+                    raise ExtractError('lost anchor: no loop of fn %s reads `%s`' % (fnname, lp['head']))
+                lp = dict(lp, k=hits_[lp.get('n', 0)] if lp.get('n', 0) < len(hits_) else hits_[0])
             kidx = lp['k']
             if kidx >= len(loops):
                 raise ExtractError('lost anchor: loop %d of fn %s (has %d loops)' % (kidx, fnname, len(loops)))
@@ -890,7 +906,7 @@ class Assembler:
             self.fired.add('2:loop-splice')
         closures = fp.closures()
         for cl in spec.get('closure', []):
-            kidx = cl['k']
+            kidx = cl.get('k', 0)
             cands = closures
             if 'after' in cl:
                 # the k-th closure that starts after a landmark (e.g. the constructor call whose result the closure
@@ -1129,9 +1145,28 @@ class Assembler:
         elif 'whole_call' in ab:
             # the whole call expression `f( .. )` named by its callee (arguments included, whatever they are; the replaced
             # text is pinned by hash like a let-form): for calls whose argument is outside the subset, e.g. an async block
+            if ab.get('all'):
+                n_ = 1
+                while True:
+                    try:
+                        kx, ky = fp.find_stmt(ab['whole_call'] + '(', n_)
+                    except ExtractError:
+                        break
+                    ed.replace(s.t[kx][1], s.t[s.match()[ky]][2], ab['as'])
+                    n_ += 1
             ka, kq = fp.find_stmt(ab['whole_call'] + '(', ab.get('n', 0))
             kb = s.match()[kq]
         else:
+            if ab.get('all'):
+                # `all = true`: every occurrence of the expression in the body (at least one)
+                n_ = 1
+                while True:
+                    try:
+                        kx, ky = fp.find_stmt(ab['expr'], n_)
+                    except ExtractError:
+                        break
+                    ed.replace(s.t[kx][1], s.t[ky][2], ab['as'])
+                    n_ += 1
             ka, kb = fp.find_stmt(ab['expr'], ab.get('n', 0))
         orig = s.text[s.t[ka][1]:s.t[kb][2]]
         as_text = ab['as'].replace('&mut verif_journal', '&mut *verif_journal') if spec.get('journal_param') else ab['as']
